@@ -207,6 +207,8 @@ mod parser;
 mod stmt;
 mod tests;
 mod value;
+#[cfg(feature = "verif-hooks")]
+pub mod verif;
 
 use errors::LoadTestError;
 use expr::Expr;
